@@ -1,13 +1,30 @@
 import WuffsVerif.Common.Line
 import WuffsVerif.Model.Rac.ChunkReader
+import WuffsVerif.Model.Rac.ByteReader
 /-! Line driver for C15 (lib/rac/chunk_reader.go).  Stateful; ops:
   case <label> <claimedSize> <hex>  -> ok dsize=<n> | err <class>     (new ChunkReader; DecompressedSize())
   dsize                             -> ok dsize=<n> | err <class>
   next                              -> chunk dlo dhi cplo cphi cslo cshi ctlo cthi stag ttag codec | eof | err <class>
   seek <d>                          -> ok | err <class>
   valid <hex> | codec <hex> | chunk <hex> <i> <cBias> <dBias> | find <hex> <dOff> <dBias>   (rNode methods, via hooks)
+ rac.Reader (Model/Rac/ByteReader.lean) with the toy codec, on the file of the last `case` line:
+  ropen                             -> ok <pos> | err <class>          (new Reader; Seek(0, io.SeekCurrent))
+  rread <n>                         -> read <hex> <ok|class>           (Read of n bytes)
+  rseek <off> <whence>              -> ok <pos> | err <class>
+  rrange <lo> <hi>                  -> ok | err <class>                (SeekRange)
+  rclose                            -> ok | err <class>
 -/
 open WuffsVerif WuffsVerif.Line WuffsVerif.Rac.ChunkReader
+open WuffsVerif.Rac.ByteReader (S openS toyCodec ReadOut)
+
+structure DState where
+  file : Option (File × Int) := none
+  cr : Option Reader := none
+  rs : Option S := none
+
+def showE (s : S) : Option WuffsVerif.Rac.Err → String
+  | none => "ok"
+  | some e => WuffsVerif.Rac.ByteReader.errWord s e
 
 def showDSize (r : Reader) : String :=
   match r.decompressedSize with
@@ -23,28 +40,62 @@ def showNext : NextResult → String
 /-- the hooks copy the bytes into a zeroed `rNode` -/
 def nodeOf (b : ByteArray) : Node := { file := File.ofByteArray b, off := 0, size := b.size }
 
-def c15Step (st : Option Reader) (l : List String) : Option Reader × String :=
+def c15Step (st : DState) (l : List String) : DState × String :=
   match l with
   | ["case", _, claimed, hex] =>
     match claimed.toInt?, fromHexArr hex with
     | some c, some b =>
-      let r := openReader (File.ofByteArray b) c
-      (some r, showDSize r)
-    | _, _ => (none, "bad-op")
+      let f := File.ofByteArray b
+      let r := openReader f c
+      ({ file := some (f, c), cr := some r, rs := none }, showDSize r)
+    | _, _ => ({}, "bad-op")
   | ["dsize"] =>
-    match st with
+    match st.cr with
     | some r => (st, showDSize r)
     | none => (st, "bad-op")
   | ["next"] =>
-    match st with
-    | some r => let (r', o) := r.next; (some r', showNext o)
+    match st.cr with
+    | some r => let (r', o) := r.next; ({ st with cr := some r' }, showNext o)
     | none => (st, "bad-op")
   | ["seek", d] =>
-    match st, d.toInt? with
+    match st.cr, d.toInt? with
     | some r, some d =>
       let (r', e) := r.seek d
-      (some r', match e with | none => "ok" | some e => "err " ++ e.word)
+      ({ st with cr := some r' }, match e with | none => "ok" | some e => "err " ++ e.word)
     | _, _ => (st, "bad-op")
+  | ["ropen"] =>
+    match st.file with
+    | some (f, c) =>
+      let (s, p, e) := (openS f c).Seek 0 1
+      ({ st with rs := some s }, match e with | none => s!"ok {p}" | some e => "err " ++ showE s (some e))
+    | none => (st, "bad-op")
+  | ["rread", n] =>
+    match st.rs, n.toNat? with
+    | some s, some n =>
+      let (s', o) := s.read toyCodec n
+      ({ st with rs := some s' },
+        match o with
+        | .ret bs e => s!"read {toHex bs} {showE s' e}"
+        | .spin => "spin")
+    | _, _ => (st, "bad-op")
+  | ["rseek", off, wh] =>
+    match st.rs, off.toInt?, wh.toInt? with
+    | some s, some off, some wh =>
+      let (s', p, e) := s.Seek off wh
+      ({ st with rs := some s' }, match e with | none => s!"ok {p}" | some e => "err " ++ showE s' (some e))
+    | _, _, _ => (st, "bad-op")
+  | ["rrange", lo, hi] =>
+    match st.rs, lo.toInt?, hi.toInt? with
+    | some s, some lo, some hi =>
+      let (s', e) := s.SeekRange lo hi
+      ({ st with rs := some s' }, match e with | none => "ok" | some e => "err " ++ showE s' (some e))
+    | _, _, _ => (st, "bad-op")
+  | ["rclose"] =>
+    match st.rs with
+    | some s =>
+      let (s', e) := s.Close
+      ({ st with rs := some s' }, match e with | none => "ok" | some e => "err " ++ showE s' (some e))
+    | none => (st, "bad-op")
   | ["valid", hex] =>
     match fromHexArr hex with
     | some b => (st, toString (nodeOf b).valid)
@@ -64,4 +115,4 @@ def c15Step (st : Option Reader) (l : List String) : Option Reader × String :=
     | _, _, _ => (st, "bad-op")
   | _ => (st, "bad-op")
 
-def main : IO Unit := run (none : Option Reader) c15Step
+def main : IO Unit := run ({} : DState) c15Step
